@@ -434,12 +434,25 @@ class World:
 
         run = self.build(spec)
         flavour = FLAVOURS[spec["flavour"]]
+        bases = ()
+        if spec.get("refines"):
+            # a @service class of another flavour that the payload's class refines: the flavour declared last counts
+            if spec["refines"] == "threading":
+                class Base:
+                    def run(self):
+                        raise AssertionError("the refined run() was started")
+            else:
+                class Base:
+                    async def run(self):
+                        raise AssertionError("the refined run() was started")
+            Base.__name__ = Base.__qualname__ = "SvcBase_%d" % spec["id"]
+            bases = (service(flavour=FLAVOURS[spec["refines"]])(Base),)
         if spec["flavour"] == "threading":
-            class Svc:
+            class Svc(*bases):
                 def run(self):
                     return run()
         else:
-            class Svc:
+            class Svc(*bases):
                 async def run(self):
                     return await run()
         Svc.__name__ = Svc.__qualname__ = "Svc_%d" % spec["id"]
